@@ -34,7 +34,7 @@ type alphabetA struct {
 func alphabetForA(thorough bool) alphabetA {
 	a := alphabetA{
 		hostNet:     []bool{false, true},
-		namespaces:  [][2]string{{"c19-app", "pod"}, {"default", "pod"}, {"kube-system", "pod"}},
+		namespaces:  [][2]string{{"c19-app", "pod"}, {"default", "pod"}, {"kube-system", "pod"}, {"kube-system", "request"}},
 		labels:      []string{absent, "true", "false", "maybe"},
 		annotations: []string{absent, "true", "false", "maybe"},
 		never:       []string{"selNoMatch", "selMatch"},
@@ -44,7 +44,7 @@ func alphabetForA(thorough bool) alphabetA {
 	}
 	if thorough {
 		a.namespaces = append(a.namespaces, [2]string{"kube-public", "pod"}, [2]string{"kube-node-lease", "pod"},
-			[2]string{"local-path-storage", "pod"}, [2]string{"c19-app", "request"}, [2]string{"kube-system", "request"})
+			[2]string{"local-path-storage", "pod"}, [2]string{"c19-app", "request"}, [2]string{"kube-public", "request"})
 		a.labels = append(a.labels, "", "True", "yes")
 		a.annotations = append(a.annotations, "", "True", "yes")
 		a.never = append(a.never, "selUnset", "selMatchExpr")
